@@ -154,3 +154,13 @@ if __name__ == "__main__":
     t0 = time.time()
     res, th, ran = extract([(), tuple(FEATURES)], log=lambda m: print(m))
     print("setup ok: tree %s, %d extraction(s), %.1fs" % (th, ran, time.time() - t0))
+    # warm the dependency cache of the macro-corpus crate (C19)
+    try:
+        sys.path.insert(0, os.path.join(VERIF, "engine"))
+        from rules import c19
+        import gen
+        t1 = time.time()
+        cf, rows, err = c19.build_and_extract(gen.select("quick", 0)[:2], REPO, None)
+        print("corpus warm-up: %s in %.1fs" % ("ok" if cf is not None else "FAILED", time.time() - t1))
+    except Exception as e:      # setup must not fail because of the warm-up
+        print("corpus warm-up skipped: %r" % (e,))
